@@ -73,6 +73,9 @@ def run(ck: Check, repo: Repo) -> None:
     ck.rule("C20.12", "a generation in which no episode finished is handled: np.stack / np.concatenate over a filtered list of the training loops runs "
                       "only under a test of that same list (the filter can leave it empty; stacking an empty list raises)")
     _guarded_reductions(ck, repo)
+    ck.rule("C20.13", "score bookkeeping of the multi-agent loops: the running score array has one column per entry of the reward dictionary that is "
+                      "added to it (per agent with the environment's rewards, per shared id with sum_shared_rewards) — grouped agents included")
+    _score_widths(ck, repo)
     ck.rule("C20.11", "channel-order typestate: with swap_channels every observation that travels from env.reset / env.step to get_action, the "
                       "stored transition or learn() is converted to channels-first exactly once on every path (never twice, never not at all)")
     channel_typestate(ck, repo, [repo.fn(m, f) for f, m in LOOPS.items()] + [repo.cls(m, c).methods["test"] for m, c in TESTERS if "test" in repo.cls(m, c).methods], "C20.11")
@@ -281,6 +284,97 @@ def _sampled_keys(ck: Check, repo: Repo) -> None:
             ck.ob("C20.1", fn, sub, bad is None, f"{fname}: a batch whose sampled indices are read was sampled with the indices requested", detail=bad or "",
                   construct=f"{fname}: read of batch['idxs'] / the sample call that produced the batch")
     ck.floor("C20.1", nreads, 4, "reads of the sampled indices inside the training loops")
+
+
+MA_SCORERS = [("agilerl.training.train_multi_agent_on_policy", "train_multi_agent_on_policy"), ("agilerl.training.train_multi_agent_off_policy", "train_multi_agent_off_policy"),
+              ("agilerl.algorithms.ippo", "IPPO.test"), ("agilerl.algorithms.maddpg", "MADDPG.test"), ("agilerl.algorithms.matd3", "MATD3.test")]
+
+
+def _id_class(cfg: CFG, at: Node, e: ast.AST, depth: int = 0) -> Optional[str]:
+    """'shared' when e denotes the shared (grouped) agent ids, 'agents' when it denotes the environment's agents."""
+    txt = ast.unparse(e)
+    if "shared_agent_ids" in txt:
+        return "shared"
+    if isinstance(e, ast.Attribute) and e.attr in ("agents", "agent_ids", "possible_agents"):
+        return "agents"
+    if isinstance(e, ast.Call) and e.args:
+        return _id_class(cfg, at, e.args[0], depth)
+    if isinstance(e, ast.Name) and depth < 3:
+        cls = {_id_class(cfg, d, v, depth + 1) for d in cfg.defs_reaching(at, e.id) for v in [cfg.value_of_def(d, e.id)] if v is not None}
+        return next(iter(cls)) if len(cls) == 1 else None
+    return None
+
+
+def _reward_class(cfg: CFG, at: Node, e: ast.AST) -> Optional[str]:
+    """'shared' when e is (a name bound to) the result of sum_shared_rewards, 'agents' when it comes out of env.step."""
+    if isinstance(e, ast.Call):
+        return "shared" if last_attr(e) == "sum_shared_rewards" else None
+    if isinstance(e, ast.Name):
+        out = set()
+        for d in cfg.defs_reaching(at, e.id):
+            a = d.ast if d.kind == "stmt" else None
+            if isinstance(a, ast.AugAssign) and isinstance(a.target, ast.Subscript):
+                continue  # filling the entries of the dictionary, not a new dictionary
+            if isinstance(a, ast.Assign) and isinstance(a.value, ast.DictComp) and len(a.value.generators) == 1:
+                # {id: 0 for id in IDS}: one entry per element of IDS
+                out.add(_id_class(cfg, d, a.value.generators[0].iter))
+            elif isinstance(a, ast.Assign) and isinstance(a.value, ast.Call):
+                if last_attr(a.value) == "sum_shared_rewards":
+                    out.add("shared")
+                elif last_attr(a.value) == "step" and isinstance(a.targets[0], ast.Tuple):
+                    out.add("agents")
+                else:
+                    out.add(None)
+            else:
+                out.add(None)
+        return next(iter(out)) if len(out) == 1 else None
+    return None
+
+
+def _score_widths(ck: Check, repo: Repo) -> None:
+    n = 0
+    for modname, qual in MA_SCORERS:
+        fn = repo.fn(modname, qual)
+        cfg = CFG(fn.node)
+        for node in cfg.live_nodes():
+            a = node.ast
+            if node.kind != "stmt" or not (isinstance(a, ast.AugAssign) and isinstance(a.op, ast.Add) and isinstance(a.target, ast.Name) and isinstance(a.value, ast.Name)):
+                continue
+            # the accumulator: np.zeros((E, len(X))) on its per-agent arm
+            widths = []
+            for d in cfg.defs_reaching(node, a.target.id):
+                v = cfg.value_of_def(d, a.target.id)
+                if v is None or d is node:
+                    continue
+                for c in ast.walk(v):
+                    if isinstance(c, ast.Call) and last_attr(c) == "zeros" and c.args and isinstance(c.args[0], ast.Tuple) and len(c.args[0].elts) == 2:
+                        w = c.args[0].elts[1]
+                        if isinstance(w, ast.Call) and call_name(w) == "len" and w.args:
+                            widths.append((d, w.args[0]))
+            if not widths:
+                continue
+            # the increment: np.array(list(R.values())) on its per-agent arm
+            rws = []
+            for d in cfg.defs_reaching(node, a.value.id):
+                v = cfg.value_of_def(d, a.value.id)
+                if not isinstance(v, ast.IfExp):
+                    continue
+                arm = [x for x in (v.body, v.orelse) if not any(isinstance(c, ast.Call) and last_attr(c) == "sum" for c in ast.walk(x))]
+                for x in arm:
+                    for c in ast.walk(x):
+                        if isinstance(c, ast.Call) and isinstance(c.func, ast.Attribute) and c.func.attr == "values" and not c.args:
+                            rws.append((d, c.func.value))
+            if not rws:
+                continue
+            n += 1
+            wc = {_id_class(cfg, d, e) for d, e in widths}
+            rc = {_reward_class(cfg, d, e) for d, e in rws}
+            ok = len(wc) == 1 and len(rc) == 1 and None not in wc and wc == rc
+            ck.ob("C20.13", fn, a, ok, f"{qual}: the per-agent score array and the rewards added to it are indexed by the same ids",
+                  detail=f"columns: one per {sorted(map(str, wc))} ({', '.join(sorted({ast.unparse(e) for _, e in widths}))}); rewards added: one per "
+                         f"{sorted(map(str, rc))} ({', '.join(sorted({ast.unparse(e) for _, e in rws}))})",
+                  construct=f"{qual}: width of the score accumulator / keys of the reward added")
+    ck.floor("C20.13", n, 5, "score accumulators of the multi-agent loops and test() methods")
 
 
 def _guarded_reductions(ck: Check, repo: Repo) -> None:
@@ -619,7 +713,12 @@ def _buffer_idiom(ck: Check, repo: Repo) -> None:
 _TO = "agilerl/training/train_off_policy.py"
 _TON = "agilerl/training/train_on_policy.py"
 _TMA = "agilerl/training/train_multi_agent_off_policy.py"
+_TMAON = "agilerl/training/train_multi_agent_on_policy.py"
 VARIANTS = [
+    ("ma-on-policy-score-increment-per-env-agent", _TMAON, "                        else np.array(list(shared_reward.values())).transpose()\n", "                        else np.array(list(reward.values())).transpose()\n", "fire", "C20.13"),
+    ("ippo-test-scores-per-env-agent", "agilerl/algorithms/ippo.py", "                    reward = self.sum_shared_rewards(reward)\n", "", "fire", "C20.13"),
+    ("ma-off-policy-scores-per-shared-id", _TMA, "    agent_ids = deepcopy(env.agents)\n", "    agent_ids = deepcopy(pop[0].shared_agent_ids)\n", "fire", "C20.13"),
+
     ("ma-stack-guarded-by-the-unfiltered-list", _TMA, "            if pop_mean_scores:\n", "            if pop_episode_scores:\n", "fire", "C20.12"),
     ("ma-stack-guarded-by-len-ok", _TMA, "            if pop_mean_scores:\n", "            if len(pop_mean_scores) > 0:\n", "silent", None),
 
